@@ -170,6 +170,8 @@ def _getter(a, b, asarray=True, lock=None):
 def _full_like(a, fill_value, dtype=None, order="K", subok=True, shape=None):
     import z3
 
+    if isinstance(a, tuple):
+        shape = a  # creation layers (BroadcastTrick) call the wrapped function with the block's shape
     if shape is None:
         shape = a.shape
     c = core.SymReal._r(fill_value)
@@ -199,8 +201,12 @@ def _arange(start, stop, step, length, dtype=None, like=None):
     return SArr((n,), lambda idx, a=a, b=b: a + b * z3.ToReal(idx[0]))
 
 
-def _zeros_like(a, dtype=None, order="K", subok=True, shape=None):
+def _zeros_like(a, dtype=None, order="K", subok=True, shape=None, meta=None):
     return _full_like(a, 0, shape=shape)
+
+
+def _ones_like(a, dtype=None, order="K", subok=True, shape=None, meta=None):
+    return _full_like(a, 1, shape=shape)
 
 
 def _concatenate_axes(arrays, axes):
@@ -228,7 +234,7 @@ def _finalize(results):
     return r2
 
 
-KERNELS = dict(finalize=_finalize, concatenate_axes=_concatenate_axes, zeros_like=_zeros_like, arange=_arange, concatenate_shaped=_concatenate_shaped, getitem=_getitem, getter=_getter, getter_nofancy=_getter, getter_inline=_getter,
+KERNELS = dict(finalize=_finalize, concatenate_axes=_concatenate_axes, zeros_like=_zeros_like, ones_like=_ones_like, arange=_arange, concatenate_shaped=_concatenate_shaped, getitem=_getitem, getter=_getter, getter_nofancy=_getter, getter_inline=_getter,
                concatenate3=concatenate_nested, full_like=_full_like)
 SAFE_NAMES = {"add", "sub", "mul", "neg", "getitem", "transpose", "identity"}
 
